@@ -286,6 +286,7 @@ fn op_par(st: &State, c: &Cmd) -> OpResult {
         .filter(|a| !a.is_empty() && a.len() <= 64 && a.iter().all(Value::is_array))
         .ok_or_else(|| tool("threads must be a non-empty array (at most 64) of command arrays"))?;
     let inner_ledger = if c.has("inner_ledger") { c.boolean("inner_ledger")? } else { false };
+    let reps = if c.has("reps") { c.int("reps")? } else { 1 };
     let barrier = Barrier::new(lists.len());
     let results: Vec<Result<Vec<Value>, String>> = thread::scope(|s| {
         let hs: Vec<_> = lists
@@ -299,6 +300,24 @@ fn op_par(st: &State, c: &Cmd) -> OpResult {
                     for (j, cmd) in list.as_array().unwrap().iter().enumerate() {
                         let ev = exec_cmd(st, cmd, j, Some(&local), inner_ledger);
                         local.push(ev);
+                    }
+                    // "reps": the list is run again and again (its commands must re-create what they
+                    // use); the first repetition whose events differ from the first run is appended
+                    // as a {"diverged": ..} record and ends this thread
+                    for rep in 1..reps {
+                        let mut again: Vec<Value> = Vec::new();
+                        let mut diverged = None;
+                        for (j, cmd) in list.as_array().unwrap().iter().enumerate() {
+                            let ev = exec_cmd(st, cmd, j, Some(&again), inner_ledger);
+                            if diverged.is_none() && ev != local[j] {
+                                diverged = Some(json!({"diverged": {"rep": rep, "j": j, "event": ev.clone()}}));
+                            }
+                            again.push(ev);
+                        }
+                        if let Some(d) = diverged {
+                            local.push(d);
+                            break;
+                        }
                     }
                     local
                 })
